@@ -232,7 +232,7 @@ def variant_jobs(ctx, tag, impmem, start, shared, opts=(), prefix="G", only=None
                         flags=["--unwind", "10", "--unwinding-assertions"], funcs=["generated:%sInstantiate (%s)" % (modname, fn)],
                         solver="z3",   # a symbolic index into a zero-initialised 64 KiB object: the SMT array theory needs < 1 s where SAT does not finish in 10 minutes
                         timeout=600, replay=lambda c, j, p, v: native_replay_generic(c, j, p, v),
-                        info=dict(layer="G", memory=("imported" if impmem else "defined"), start=start, w2c2_opts=list(opts), module_hex=wasm_bytes.hex())))
+                        info=dict(layer="G", generated_c=os.path.join(d, modname + ".c"), memory=("imported" if impmem else "defined"), start=start, w2c2_opts=list(opts), module_hex=wasm_bytes.hex())))
     return jobs
 
 
